@@ -10,7 +10,7 @@ from .. import sym
 from ..evalfn import SELF, property_backing
 from ..source import AnalysisError
 from ..sym import canon
-from .common import (CORE, G, GX, plain, Roles, cur, dominates, final_value, fld, guard_subset, has_lit, hist_fill, hist_store, is_entry, lits, loops_prefix,
+from .common import (CORE, G, GX, plain, increments_by, loop_conditions, Roles, cur, dominates, final_value, fld, guard_subset, has_lit, hist_fill, hist_store, is_entry, lits, loops_prefix,
                      mentions_field, mentions_param, postdominates, series_name, short)
 
 SEC_CLASSES = ["SecurityBase", "Security", "FixedIncomeSecurity", "CouponPayingSecurity", "HedgeSecurity", "CouponPayingHedgeSecurity"]
@@ -1084,7 +1084,7 @@ def transact_rules(chk, pid):
                 continue
             if pid in ("C02", "C07"):
                 pws = [w for w in S.writes(R.POSITION, SELF) if guard_subset(w.guard, gg)]
-                okp = len(pws) == 1 and pws[0].aug == "+" and equal(pws[0].extra, q)
+                okp = len(pws) == 1 and increments_by(pws[0], q)
                 chk.ob("C02.R1", okp and traded, CORE, host, "position-delta", "the position changes by exactly the traded quantity",
                        where=fi.where, expected="position + q", found=short(leaf), sample={"position": short(leaf)})
             if pid in ("C01", "C02"):
@@ -1096,7 +1096,7 @@ def transact_rules(chk, pid):
                 for fname, ci, key, what in ((acc, 1, "outlay-accumulated", "the fee-free outlay is accumulated for the date's outlay row"),
                                              (R.BIDOFFER_PAID, 3, "bidoffer-accumulated", "the spread cost is accumulated as bid/offer paid")):
                     ws = [w for w in S.writes(fname, SELF) if guard_subset(w.guard, gg)]
-                    ok = len(ws) == 1 and ws[0].aug == "+" and comp(ci, gg) is not None and equal(sym.restrict(ws[0].extra, gg), comp(ci, gg))
+                    ok = len(ws) == 1 and comp(ci, gg) is not None and increments_by(_restricted(ws[0], gg), comp(ci, gg))
                     chk.ob("C07.R2", ok, CORE, host, key, what, where=ws[0].where if ws else fi.where, expected="%s += %s component of outlay()" % (fname, ["full", "outlay", "fee", "bidoffer"][ci]),
                            found=short(ws[0].extra, 200) if ws else "no write")
     # guards (C10.R1 custom price, zero quantity no-op)
@@ -1115,6 +1115,16 @@ def transact_rules(chk, pid):
             gw = G(w)
             ok = sym.lit_holds(gw, ("zero", sym._abs_norm(sym.to_rat(q))), False)
             chk.ob("C05.R1", ok, CORE, host, "zero-quantity-noop", "a zero (or NaN) quantity trades nothing", where=w.where)
+
+
+class _W(object):
+    pass
+
+
+def _restricted(w, gg):
+    r = _W()
+    r.value, r.old, r.obj, r.field = sym.restrict(w.value, gg), (sym.restrict(w.old, gg) if w.old is not None else None), w.obj, w.field
+    return r
 
 
 def _outlay_acc(chk, R):
